@@ -26,9 +26,13 @@ import json
 import math
 import os
 
-import numpy as np
+# small matrices only: BLAS/OpenMP worker threads cost more (system time) than they give
+for _v in ("OMP_NUM_THREADS", "OPENBLAS_NUM_THREADS", "MKL_NUM_THREADS"):
+    os.environ.setdefault(_v, "1")
 
-from . import core, gens
+import numpy as np  # noqa: E402
+
+from . import core, gens  # noqa: E402
 
 FIXED = True   # the main model is the repaired behaviour
 
@@ -647,8 +651,8 @@ def gen_simp_wide(rng, chk):
     `_simplify_perm` unravels - with the focus drawn among the size boundaries or anywhere."""
     m = rng.randint(WIDE_MIN, chk.pick(24, 40)) if rng.random() < 0.7 else rng.randint(33, 40)
     vcount = [0]
-    focus = rng.choice([b for b in BOUNDARIES if b < m]) if rng.random() < 0.5 else rng.randrange(m)
-    if rng.random() < 0.55:
+    focus = rng.choice([b for b in BOUNDARIES if b < m]) if rng.random() < 0.6 else rng.randrange(m)
+    if rng.random() < 0.65:
         def wperm():
             n = rng.randint(max(2, m - 3), m) if rng.random() < 0.7 else rng.randint(2, m)
             return {"off": rng.randint(0, m - n), "leaf": {"t": "PERM", "perm": gen_perm_vec(rng, n)}}
@@ -663,7 +667,7 @@ def gen_simp_wide(rng, chk):
 
 
 def gen_simp_case(rng, chk):
-    if rng.random() < 0.3:
+    if rng.random() < 0.35:
         return gen_simp_wide(rng, chk)
     m = rng.randint(2, chk.pick(6, 8))
     vcount = [0]
@@ -992,7 +996,7 @@ def gen_flat_node(rng, m, depth, max_ops, lc, allow_lc):
 
 def gen_flat_case(rng, chk):
     m = rng.randint(2, chk.pick(6, 8))
-    if rng.random() < 0.1:
+    if rng.random() < 0.15:
         m = rng.randint(WIDE_MIN, chk.pick(14, 20))
     lc = [0]
     top = gen_flat_node(rng, m, rng.randint(1, chk.pick(3, 4)), rng.randint(1, chk.pick(6, 9)), lc,
@@ -1262,7 +1266,7 @@ def run(chk: core.Check):
     run_bubble(chk)
     for _ in range(chk.pick(700, 4000)):
         handle_inverse(chk, gen_inv_case(rng, chk))
-    for i in range(chk.pick(600, 3000)):
+    for i in range(chk.pick(800, 3000)):
         case = gen_simp_case(rng, chk)
         handle_simplify(chk, case)
         if i % 4 == 0:
